@@ -642,8 +642,8 @@ impl AggregateFunc {
 
         // First param: k (integer)
         let k: usize = parts[0].parse().ok()?;
-        // Second param: threshold (float)
-        let threshold: f64 = parts[1].parse().ok()?;
+        // Second param: threshold (finite float)
+        let threshold: f64 = parts[1].parse().ok().filter(|t: &f64| t.is_finite())?;
 
         // Remaining are annotated variable specs
         let (output_vars, order_var, descending) = Self::parse_annotated_vars(&parts[2..], true)?; // default desc
@@ -667,8 +667,8 @@ impl AggregateFunc {
             return None;
         }
 
-        // First param: max_distance (float)
-        let max_distance: f64 = parts[0].parse().ok()?;
+        // First param: max_distance (finite float)
+        let max_distance: f64 = parts[0].parse().ok().filter(|d: &f64| d.is_finite())?;
 
         // Remaining are annotated variable specs
         let (output_vars, distance_var, _descending) =
